@@ -84,6 +84,8 @@ def build(ty, js):
     k = p[0]
     if js is None and k not in ("None", "Any"):
         return None
+    if k == "None":
+        return None
     if k in ("Int", "Nat"):
         return int(js)
     if k == "Real":
@@ -391,6 +393,7 @@ SPEC_NS = {
     "sorted_by": lambda arr, f: is_sorted(_col(arr, f)),
     "is_sorted": is_sorted,
     "strictly_increasing": strictly_increasing,
+    "lower": lambda s: s.lower(),
     "implies": lambda a, b: (not a) or b,
     "iff": lambda a, b: bool(a) == bool(b),
     "isnan": lambda x: bool(np.isnan(x)),
